@@ -289,7 +289,7 @@ fn mutate_simple(g: &SimpleGlyph, rng: &mut Rng) -> (SimpleGlyph, String) {
             what = format!("repeat={}", n);
         }
         5 => {
-            let n = *rng.pick(&[0usize, 1, 2, 255, 256, 1000]);
+            let n = *rng.pick(&[0usize, 1, 2, 255, 256, 1000, 65534, 65535]);
             instructions = rng.bytes(n);
             what = format!("instructions={}", n);
         }
